@@ -40,6 +40,8 @@ def run(ck: Check) -> None:
     k1(ck, fm)
     k2(ck)
     k3(ck, fm)
+    k3_pint(ck, fm)
+    k4_decoder(ck)
     k4(ck)
     k5(ck)
     k6(ck)
@@ -628,6 +630,75 @@ def _placeholder_dead(fm: FuncModel, cv: str, d) -> tuple[bool, str]:
 
 
 # ------------------------------------------------------------------------------------------ K3
+def k4_decoder(ck: Check) -> None:
+    """`valuation_to_state` (the way surviving candidates come back from the simulation): every BDD variable that stands for a
+    network variable contributes its value under that variable's name; only the others (parameters) are skipped."""
+    try:
+        fm = ck.prog.fm("biobalm.symbolic_utils", "valuation_to_state")
+    except Exception:
+        raise AnalysisError("anchor vanished: biobalm.symbolic_utils.valuation_to_state")
+    f = fm.f
+    loops = [n for n in own_walk(f.node) if isinstance(n, ast.For) and isinstance(n.iter, ast.Call) and callee_name(n.iter) == "items"]
+    stores = [n for n in own_walk(f.node) if isinstance(n, ast.Assign) and isinstance(n.targets[0], ast.Subscript)]
+    probs = []
+    if len(loops) != 1 or len(stores) != 1 or not isinstance(loops[0].target, ast.Tuple) or len(loops[0].target.elts) != 2:
+        raise AnalysisError("anchor vanished: item loop / store of valuation_to_state")
+    lp, st = loops[0], stores[0]
+    bvar, bval = (text(e) for e in lp.target.elts)
+    cn = fm.cfgn(st)
+    # the network variable is looked up from the BDD variable of this item
+    nv = None
+    for y in ast.walk(st.targets[0].slice):
+        if isinstance(y, ast.Name):
+            d = fm.deref(y, cn)
+            if isinstance(d, ast.Call) and callee_name(d) == "find_network_variable" and d.args and text(d.args[0]) == bvar:
+                nv = y.id
+    if nv is None or callee_name(st.targets[0].slice) != "get_network_variable_name":
+        probs.append("the key of the result is not the name of the network variable found for the item's BDD variable")
+    if bval not in {y.id for y in ast.walk(st.value) if isinstance(y, ast.Name)}:
+        probs.append("the stored value is not the item's value")
+    if nv is not None:
+        pc = fm.pc(cn)
+        at = logic.B(f"none:{nv}")
+        try:
+            guard_ok = logic.equivalent(pc, logic.Not(at)) or logic.equivalent(pc, logic.TRUE)
+        except logic.TooBig:
+            guard_ok = False
+        if not guard_ok:
+            probs.append(f"the value is stored under `{logic.show(pc)[:60]}`: every item whose BDD variable stands for a network variable "
+                         f"(`{nv} is not None`) must be stored, and only those")
+    ck.ob("K4", fm, st, not probs, "; ".join(probs) if probs else
+          "every network variable of the valuation is decoded under its own name", key="valuation decoder")
+
+
+def k3_pint(ck: Check, fm: FuncModel) -> None:
+    """The reachability filter (pint) drops a candidate only when the tool has shown that the state reaches the rest of the
+    avoided region; 'cannot verify' and 'not reachable' both keep it."""
+    from .c13 import _tbranch
+    from .common import paths_imply
+    f = fm.f
+    for lp in [n for n in own_walk(f.node) if isinstance(n, ast.For)]:
+        calls = [c for c in ast.walk(lp) if isinstance(c, ast.Call) and callee_name(c) == "pint_reachability"]
+        if not calls:
+            continue
+        if any(isinstance(l2, ast.For) and l2 is not lp and any(c in list(ast.walk(l2)) for c in calls) for l2 in ast.walk(lp)):
+            continue        # the innermost loop that holds the call is the filter loop
+        keeps = [c for c in ast.walk(lp) if isinstance(c, ast.Call) and isinstance(c.func, ast.Attribute) and c.func.attr == "append"
+                 and c.args and isinstance(lp.target, (ast.Tuple, ast.Name))
+                 and text(c.args[0]) in ([text(e) for e in lp.target.elts] if isinstance(lp.target, ast.Tuple) else [text(lp.target)])]
+        probs = []
+        if not keeps:
+            probs.append("no candidate is ever kept by the reachability filter")
+        else:
+            tr = logic.Translator(lambda e: text(e))
+            hit = logic.Or(*[logic.B("T:" + text(c)) for c in calls])
+            why = paths_imply(fm, _tbranch(fm, lp), fm.cfg.loop_header[lp], hit, tr, stop={fm.cfgn(k).id for k in keeps})
+            if why is not None:
+                probs.append(f"a candidate is dropped although the reachability tool has not shown that it reaches the avoided region: {why}")
+        ck.ob("K3", fm, lp, not probs, "; ".join(probs) if probs else
+              "the reachability filter drops a state only on a positive answer of the tool", key="pint filter: drop discipline")
+
+
 def k3(ck: Check, fm: FuncModel) -> None:
     f = fm.f
     sd_p, node_p = f.params()[0], f.params()[1]
